@@ -70,6 +70,16 @@ class C11(Property):
                 argv0 = rng.choice(ARGV0)
                 name = expected_name(argv0)
                 cases.append(Case("g%dp%d" % (k, j), opts, argv, name=name, tags={"argv0": argv0, "name": name}))
+            if rng.random() < 0.15:
+                # a completion request (what the shell glue sends): the candidates go to stdout, status 0 -- in the child too.
+                # WHICH candidates is C14/C15's business (run_inner of the model has no completion mode): implementation in
+                # process vs implementation as a process only
+                words = gen.gen_argv(rng, opts)[:rng.choice([0, 1, 2])]
+                last = rng.choice([b"", b"-", b"--", b"x"])
+                argv = [b"--bpaf-complete-rev=%d" % rng.choice([1, 7, 8, 9])] + words + [last]
+                argv0 = rng.choice([a for a in ARGV0 if expected_name(a) is not None])
+                name = expected_name(argv0)
+                cases.append(Case("g%dc" % k, opts, argv, name=name, tags={"argv0": argv0, "name": name, "comp": True}))
             k += 1
         return cases
 
@@ -110,7 +120,7 @@ class C11(Property):
             if m is None or got != want:
                 out.append(Finding("disagree", cases[0], "program name of argv[0]=%r: model %r vs documented rule %r" % (a, got, want)))
         for c in cases:
-            r = compare.agree_class_value(model.get(c.id), impl.get(c.id))
+            r = None if c.tags.get("comp") else compare.agree_class_value(model.get(c.id), impl.get(c.id))
             if r:
                 out.append(Finding("disagree", c, r))
             ic = impl.get(c.id)
